@@ -33,7 +33,7 @@ def run(tier):
     chk = Check(PROP, tier)
     lean_ok = lean_gate(chk, THEOREMS)
     quick = tier == "quick"
-    n_gen = 60 if quick else 900
+    n_gen = 180 if quick else 1500
     nmax = 5 if quick else 6
     cases = pipeline.load_corpus(PROP) + pipeline.generate_cases(
         n_gen, f"{PROP}-{tier}", families=["guarded", "finite", "branchy", "guarded", "choice", "param", "poly", "simult"])
